@@ -1,6 +1,78 @@
 package main
 
-import "github.com/drand/drand/v2/verifharness/vlib"
+import (
+	"fmt"
+	"time"
 
-// netCheck is c02-net; filled in with the beaconnet harness.
-func netCheck(c *vlib.Check) {}
+	"github.com/drand/drand/v2/crypto"
+	"github.com/drand/drand/v2/verifharness/bnet"
+	"github.com/drand/drand/v2/verifharness/vlib"
+	vrt "verif.local/vrt"
+	"verif.local/vrt/explore"
+)
+
+// netCheck is c02-net: a network of real handlers (one per member) under the controlled scheduler with
+// scripted partitions / stop+restart and, as explorer choices, drops of individual partials; the aggregation
+// path and the sync path of a node that fell behind race on its store. Oracles: per-node write log is
+// head+1 each time, every write reference-verifies, any two nodes hold identical beacons per round, final
+// stores are gap-free and linked.
+func netCheck(c *vlib.Check) {
+	genesis := vrt.Epoch.Add(2 * time.Second).Unix()
+	scripts := func(n int) [][]bnet.Fault {
+		var s [][]bnet.Fault
+		s = append(s, nil)
+		for i := 0; i < n && i < 2; i++ {
+			s = append(s, []bnet.Fault{{Kind: "partition", Node: i, AtRound: 2}, {Kind: "heal", Node: i, AtRound: 3}})
+			s = append(s, []bnet.Fault{{Kind: "partition", Node: i, AtRound: 2}, {Kind: "heal", Node: i, AtRound: 4}})
+			s = append(s, []bnet.Fault{{Kind: "stop", Node: i, AtRound: 2}, {Kind: "restart", Node: i, AtRound: 4}})
+			s = append(s, []bnet.Fault{{Kind: "cut", Node: i, Peer: (i + 1) % n, AtRound: 1}, {Kind: "uncut", Node: i, Peer: (i + 1) % n, AtRound: 3}})
+		}
+		return s
+	}
+	type job struct {
+		scheme   string
+		n, t     int
+		backends []string
+		rounds   int
+		drop     bool
+		bound    int
+		prefill  []uint64
+		start    uint64
+	}
+	var js []job
+	if c.Quick() {
+		js = []job{
+			{crypto.DefaultSchemeID, 3, 2, []string{"memdb", "memdb", "memdb"}, 5, false, 1, nil, 0},
+			{crypto.UnchainedSchemeID, 3, 2, []string{"memdb", "bolt-trimmed", "memdb"}, 5, false, 0, nil, 0},
+			{crypto.DefaultSchemeID, 3, 2, []string{"memdb", "memdb", "memdb"}, 3, true, 1, nil, 0},
+			// V (node 0) two rounds behind its peers at start: sync and aggregation race on its store
+			{crypto.DefaultSchemeID, 3, 2, []string{"memdb", "memdb", "memdb"}, 3, false, 1, []uint64{2, 4, 4}, 5},
+		}
+	} else {
+		for _, sc := range crypto.ListSchemes() {
+			js = append(js, job{sc, 3, 2, []string{"memdb", "bolt-trimmed", "bolt-untrimmed"}, 6, false, 1, nil, 0})
+			js = append(js, job{sc, 3, 2, []string{"memdb", "memdb", "memdb"}, 3, false, 2, []uint64{2, 4, 4}, 5})
+		}
+		js = append(js, job{crypto.DefaultSchemeID, 4, 3, []string{"memdb", "memdb", "memdb", "memdb"}, 6, false, 1, nil, 0})
+		js = append(js, job{crypto.DefaultSchemeID, 3, 2, []string{"memdb", "memdb", "memdb"}, 4, true, 2, nil, 0})
+		js = append(js, job{crypto.UnchainedSchemeID, 3, 2, []string{"memdb", "memdb", "memdb"}, 6, false, 2, nil, 0})
+	}
+	var jobs []vlib.E1Job
+	for _, j := range js {
+		k := bnet.NewKeys(j.scheme, j.n, j.t, 3*time.Second, genesis)
+		sc := &bnet.Scenario{Keys: k, Backends: j.backends, Rounds: j.rounds, Scripts: scripts(j.n), Drop: j.drop, Prefill: j.prefill, StartRound: j.start}
+		if j.prefill != nil {
+			sc.Scripts = nil
+		}
+		jobs = append(jobs, vlib.E1Job{Name: fmt.Sprintf("c02-net/%s/n=%d/t=%d/%v/rounds=%d/drop=%v/prefill=%v", j.scheme, j.n, j.t, j.backends, j.rounds, j.drop, j.prefill), Bound: j.bound,
+			Run: func(devs []vrt.Dev) *explore.Exec {
+				r := sc.Run(devs, false)
+				x := sc.JudgeSafety(r, "c02/net")
+				if r.Net != nil {
+					r.Net.Close()
+				}
+				return x
+			}})
+	}
+	c.E1Batch(jobs, time.Until(c.DeadlineIn(100*time.Second, 30*time.Minute)))
+}
